@@ -40,6 +40,9 @@ class SPuppet:
         self.held: BaseException | None = None
         self.task_status = None
         self.failat_cms: dict = {}
+        self.idle_hits = 0
+        self.pending_op = None
+        self.in_start_join = False
 
     async def main(self):
         self.task = asyncio.current_task()
@@ -56,6 +59,7 @@ class SPuppet:
                     self.at_decision = False
                     self.held = e
                     self.outcome = ("exc", e)
+                    self.idle_hits += 1
                     continue
                 self.at_decision = False
                 if isinstance(cmd, tuple) and cmd[0] == "finish":
@@ -76,7 +80,9 @@ class SPuppet:
 class SWorld:
     """Real objects + id registries.  All ids are allocation indices (1-based), as in the model."""
 
-    def __init__(self):
+    real = False
+
+    def __init__(self, loop=None):
         import anyio
         import anyio._backends._asyncio as ab
         import anyio._core._tasks as ct
@@ -84,7 +90,7 @@ class SWorld:
         self.anyio = anyio
         self.ab = ab
         self.ct = ct
-        self.loop = SchedLoop()
+        self.loop = loop if loop is not None else SchedLoop()
         self.puppets: dict[int, SPuppet] = {}
         self.scopes: list = []
         self.groups: list = []
@@ -98,6 +104,9 @@ class SWorld:
         self.public_scopes: list[int] = []
         self.log: list = []              # readable history for monitors: (op tuple, result tuple, snapshot dict)
         self._expect_child: SPuppet | None = None
+        if self.real:
+            self._patch()
+            return
         orig_create_task = self.loop.create_task
 
         def create_task(coro, **kw):
@@ -324,6 +333,18 @@ class SWorld:
         return getattr(p, "pre_task", None)
 
     # --- performing ops ---
+    def adopt_expected(self):
+        """Real-loop mode: the create_task hook is not available; find the task the group just created."""
+        ch = self._expect_child
+        if ch is None or not self.real:
+            return
+        new = [t for t in ch._tg._tasks if t not in ch._known]
+        if new:
+            self._expect_child = None
+            ch.tid = self.next_tid()
+            ch.pre_task = new[0]
+            self.register_child(ch)
+
     def register_child(self, child: SPuppet):
         self.puppets[child.tid] = child
         self.spawned_tids.append(child.tid)
@@ -394,6 +415,8 @@ class SWorld:
         async def spawn(p):
             tg = w.groups[b - 1]
             child = SPuppet(w, 0, True)
+            child._tg = tg
+            child._known = set(tg._tasks)
             coro = child.main()
             w._expect_child = child
             try:
@@ -402,12 +425,16 @@ class SWorld:
                 if w._expect_child is child:      # refused: no task was created
                     w._expect_child = None
                     coro.close()
+            w.adopt_expected()
             w.public_handles.append(child.tid)   # create_task() hands the TaskHandle to the program
             return child.tid
 
         async def start(p):
             tg = w.groups[b - 1]
             child = SPuppet(w, 0, True)
+
+            child._tg = tg
+            child._known = set(tg._tasks)
 
             def fn(*, task_status):
                 child.task_status = task_status
@@ -498,6 +525,8 @@ class SWorld:
             h = self.puppet_handle(p)
             loop.run_handle(h)
             out = self.status_after(p)
+            p.pending_op = c if (out is not None and out[0] == "blocked") else None
+            p.in_start_join = False
         elif c == NEWROOT:
             t = self.next_tid()
             p = SPuppet(self, t, False)
@@ -521,6 +550,12 @@ class SWorld:
             p.outcome = None
             loop.run_handle(h)
             out = self.status_after(p, first_step=first)
+            if out is not None and out[0] == "blocked":
+                if p.pending_op == START:
+                    p.in_start_join = True       # start() was interrupted and now waits for the child under a shield
+            else:
+                p.pending_op = None
+                p.in_start_join = False
         elif c in (RUNDELIVER, RUNTASKDONE, RUNSLEEPDONE, RUNTIMEOUT):
             base = {RUNDELIVER: 3000, RUNTASKDONE: 4000, RUNSLEEPDONE: 5000, RUNTIMEOUT: 6000}[c]
             h = self.find_handle(base + a)
